@@ -12,6 +12,8 @@ RULE = ("fuse / fuse_os / fuse_ss for the 4 operators: guard lattice (vacuous, d
         "or an ordinary entry differing by 1..4 ulps; ECm mostly on operands where that state decides the maximal uncertainty, so that a "
         "base rate off by per cents shows in the uncertainty); n=1..4; families A/M/D/N, styles o/r/asg; f32+f64; ECm with base rates whose float sum is 1+k*eps, k=-2..4 "
         "(shared / aliased / equal / different base rates, 1-D and 2-D / 3-D families up to 8 cells, variant token acc). "
+        "STRICT sign clause C03.ecm_masses_nonneg (repair 8520ade: uncertainty_maximized clamps the rounding residue of the zero mass): every "
+        "ok, finite ECm result of operands whose entries are all >= 0 exactly (u1, u2 <= 1) has masses >= 0 and u in [0, 1] exactly. "
         "non-trivial = value returned, not both operands vacuous")
 EXHAUSTIVE = {}
 LEVEL_TEXT = ("Theorem: on well-formed rational operands outside the tolerance bands the model's fuse equals the executable evidence-space "
